@@ -223,6 +223,7 @@ class ArithFunctions(InterpreterFunctions):
         rhs: int
         (lhs, rhs) = args
         assert rhs >= 0
+        lhs = to_signed(lhs, _int_bitwidth(interpreter, op.result.type))
         return (lhs >> rhs,)
 
     @impl(arith.DivSIOp)
